@@ -425,6 +425,29 @@ pub fn put_handle<E: Elem, Tr: ?Sized + TrSet, M1: MemB, M2: MemB>(
     }
 }
 
+/// Take ownership of the value behind a handle: by `downcast` (mode 0) or by the raw-memory form
+/// of consumption, `move_into`, with the type left unknown (mode 1) or stated (mode 2).
+pub fn own_value<V: AnyValue, E: Elem>(h: V, mode: u8) -> Option<E> {
+    if mode % 3 == 0 {
+        return lib(|| h.downcast::<E>());
+    }
+    let sz = lib(|| h.size());
+    if sz != size_of::<E>() || lib(|| h.value_typeid()) != TypeId::of::<E>() {
+        lib(|| drop(h));
+        return None;
+    }
+    let mut slot = std::mem::MaybeUninit::<E>::uninit();
+    let out = slot.as_mut_ptr() as *mut u8;
+    unsafe {
+        if mode % 3 == 1 {
+            lib(|| h.move_into::<any_vec::any_value::Unknown>(out, sz));
+        } else {
+            lib(|| h.move_into::<E>(out, sz));
+        }
+        Some(slot.assume_init())
+    }
+}
+
 /// Consume a removal handle according to the sink kind.
 pub fn sink_handle<E: Elem, Tr: ?Sized + TrSet, M2: MemB, H: AnyValueMut>(
     mut h: H,
@@ -437,11 +460,11 @@ pub fn sink_handle<E: Elem, Tr: ?Sized + TrSet, M2: MemB, H: AnyValueMut>(
     match r.sink {
         SINK_DROP => lib(|| drop(h)),
         SINK_DOWNCAST_KEEP => {
-            let x = lib(|| h.downcast::<E>()).expect("LIB: downcast to the real type");
+            let x = own_value::<H, E>(h, r.form / 2 + (r.form >= 2) as u8 * (r.i % 2) as u8).expect("LIB: downcast to the real type");
             cx.pool.push(x);
         }
         SINK_DOWNCAST_DROP => {
-            let x = lib(|| h.downcast::<E>()).expect("LIB: downcast to the real type");
+            let x = own_value::<H, E>(h, r.form / 2 + (r.form >= 2) as u8 * (r.i % 2) as u8).expect("LIB: downcast to the real type");
             drop(x);
         }
         SINK_DOWNCAST_WRONG => {
@@ -473,7 +496,7 @@ pub fn sink_handle<E: Elem, Tr: ?Sized + TrSet, M2: MemB, H: AnyValueMut>(
         }
         SINK_SWAP => {
             let mut w = AnyValueWrapper::new(E::make(r.tags[0]));
-            if r.form == 0 {
+            if r.form % 2 == 0 {
                 lib(|| h.swap(&mut w));
             } else {
                 lib(|| w.swap(&mut h));
@@ -548,7 +571,7 @@ pub fn run_script<'a, E: Elem, Tr: ?Sized + TrSet, M: MemB, M2: MemB>(
     cx: &mut Cx<E>,
 ) {
     let mut tag_cursor = if matches!(r.kind, REPL_WRAPPER | REPL_RAW) && r.op == Op::Splice { r.n } else { 0 };
-    for b in r.script.iter() {
+    for (pos, b) in r.script.iter().enumerate() {
         let back = b & 1 == 1;
         let sink = b >> 1;
         let item = if back { it.next_back_() } else { it.next_() };
@@ -565,7 +588,8 @@ pub fn run_script<'a, E: Elem, Tr: ?Sized + TrSet, M: MemB, M2: MemB>(
         match sink {
             ITEM_DROP => lib(|| drop(item)),
             ITEM_KEEP => {
-                let x = lib(|| item.downcast::<E>()).expect("LIB: downcast to the real type");
+                // every third kept item is taken through the raw-memory form of consumption
+                let x = own_value::<_, E>(item, (pos % 3) as u8).expect("LIB: downcast to the real type");
                 cx.pool.push(x);
             }
             ITEM_FORGET => std::mem::forget(item),
@@ -1606,7 +1630,9 @@ where
                     if let Some(p) = self.a0.take() {
                         let off = p.offset();
                         let v = p.take();
-                        let v = MA::raw_trip::<Tr, E>(v, r.form == 1, ev);
+                        let (cf, df) = (Tr::clone_fn_addr(&v), lib(|| v.element_drop()).map(|f| f as usize));
+                        let v = MA::raw_trip::<Tr, E>(v, r.form == 1, cf, ev);
+                        ev.push(Ev::Bool(Tr::clone_fn_addr(&v) == cf && lib(|| v.element_drop()).map(|f| f as usize) == df));
                         self.a0 = Some(Placed::new(v, off / std::mem::align_of::<AnyVec<Tr, MA>>()));
                     }
                 }
@@ -1614,7 +1640,9 @@ where
                     if let Some(p) = self.a1.take() {
                         let off = p.offset();
                         let v = p.take();
-                        let v = MA::raw_trip::<Tr, E>(v, r.form == 1, ev);
+                        let (cf, df) = (Tr::clone_fn_addr(&v), lib(|| v.element_drop()).map(|f| f as usize));
+                        let v = MA::raw_trip::<Tr, E>(v, r.form == 1, cf, ev);
+                        ev.push(Ev::Bool(Tr::clone_fn_addr(&v) == cf && lib(|| v.element_drop()).map(|f| f as usize) == df));
                         self.a1 = Some(Placed::new(v, off / std::mem::align_of::<AnyVec<Tr, MA>>()));
                     }
                 }
@@ -1622,7 +1650,9 @@ where
                     if let Some(p) = self.b.take() {
                         let off = p.offset();
                         let v = p.take();
-                        let v = MB::raw_trip::<Tr, E>(v, r.form == 1, ev);
+                        let (cf, df) = (Tr::clone_fn_addr(&v), lib(|| v.element_drop()).map(|f| f as usize));
+                        let v = MB::raw_trip::<Tr, E>(v, r.form == 1, cf, ev);
+                        ev.push(Ev::Bool(Tr::clone_fn_addr(&v) == cf && lib(|| v.element_drop()).map(|f| f as usize) == df));
                         self.b = Some(Placed::new(v, off / std::mem::align_of::<AnyVec<Tr, MB>>()));
                     }
                 }
